@@ -814,7 +814,10 @@ mod os {
                 return Ok(Some(exit_status));
             }
 
-            let deadline = Instant::now() + dur;
+            // A duration so large that it cannot be added to the clock
+            // (e.g. Duration::MAX) never elapses: wait without a deadline
+            // rather than panic on the overflow.
+            let deadline = Instant::now().checked_add(dur);
             // double delay at every iteration, maxing at 100ms
             let mut delay = Duration::from_millis(1);
 
@@ -823,12 +826,15 @@ mod os {
                 if let Finished(exit_status) = self.child_state {
                     return Ok(Some(exit_status));
                 }
-                let now = Instant::now();
-                if now >= deadline {
-                    return Ok(None);
+                let mut sleep_for = delay;
+                if let Some(deadline) = deadline {
+                    let now = Instant::now();
+                    if now >= deadline {
+                        return Ok(None);
+                    }
+                    sleep_for = min(delay, deadline.duration_since(now));
                 }
-                let remaining = deadline.duration_since(now);
-                ::std::thread::sleep(min(delay, remaining));
+                ::std::thread::sleep(sleep_for);
                 delay = min(delay * 2, Duration::from_millis(100));
             }
         }
